@@ -461,7 +461,12 @@ class cleanup_functools_wrapper(object):
 
 def autoforwards_function(func, args, kwargs):
     with cleanup_functools_wrapper(func):
-        sig = _signatures.signature(func)
+        try:
+            sig = _signatures.signature(func)
+        except (ValueError, TypeError):
+            # eg. a functools.lru_cache wrapper: without __wrapped__ it is
+            # a builtin for which no signature can be found
+            raise UnknownForwards
     if not any_params_star(sig):
         raise UnknownForwards
     func_ast = _util.get_ast(func)
